@@ -671,6 +671,10 @@ class Association(threading.Thread):
                 with set_timer_resolution(self._timer_resolution):
                     self._run_reactor()
 
+                # If another thread ended the association the provider may
+                #   still have PDUs to send: wait for it before shutting down
+                self.kill()
+
             # Ensure the connection is shutdown properly
             sock = cast("AssociationSocket", self.dul.socket)
             if self._server and sock.socket:
